@@ -476,7 +476,9 @@ def _constant_value(expr: Expression) -> float | None:
     if isinstance(expr, Constant):
         return float(expr.value)
     if expr.degree == 0:
-        return float(expr.evaluate({}))
+        # x ** 0 has degree 0 but mentions x: any point gives the value
+        origin = {v.name: 0.0 for v in expr.get_variables()}
+        return float(expr.evaluate(origin))
     return None
 
 
